@@ -147,6 +147,8 @@ def make_case(rng, b, fam, orient, mode, fractions=(1.0, 0.75, 0.5, 0.25), N=N_D
     # label pairs incl. one label being a substring of the other (Li1 / Li10): sites are grouped by label EQUALITY
     LA, LB = [('A', 'B'), ('Li1', 'Li10'), ('Li10', 'Li1'), ('Li', 'Li1'), ('48h2', '48h'), ('B', 'AB')][int(rng.integers(0, 6))]
     labels = [LA if i < (S + 1) // 2 else LB for i in range(S)]
+    if rng.random() < 0.6:
+        rng.shuffle(labels)                 # sites of one label need not be stored next to each other
     if mode == 'float':
         r, Q = pick_radius(rng, N, 0.6, rmax, [f])
         radii = [r] * S
